@@ -34,7 +34,7 @@ def make_graph(root, targets, requested):
         tid = t["proj"] + "::" + t["name"]
         own_in = ["F:" + pj(d, "in_" + t["name"]) + "|"] if t["kind"] != "a" else []
         own_out = ["F:" + pj(d, "out_" + t["name"]) + "|.o", "C:" + d + "|echo " + t["name"]] if (t["kind"] == "b" and not t.get("noout")) else []
-        ts.append(dict(t, id=tid, ownIn=own_in, ownOut=own_out))
+        ts.append(dict(t, id=tid, ownIn=own_in, ownOut=own_out, bad=t.get("bad", [])))
     return {"root": root, "pkeys": sorted({root, "S"}), "targets": ts, "requested": requested}
 
 
@@ -65,6 +65,8 @@ def render_graph(g):
             lines.append("      - paths: [in_%s]" % t["name"])
             for r in t["outs"]:
                 lines.append("      - %s.output" % render_ref(r))
+            for b in t.get("bad", []):
+                lines.append("      - '%s'" % b)
             if t["kind"] == "b" and not t.get("noout"):
                 lines.append("    output:")
                 lines.append("      - paths: [out_%s]\n        extensions: [o]" % t["name"])
@@ -97,7 +99,9 @@ def gen_resolve_cases(rng, n, exhaustive_small=True):
             w = [6 if (r["q"] in ("", "S", root) and r["n"] in ("a", "b")) else 1 for r in P]
             deps = [dict(x) for x in rng.choices(P, weights=w, k=nd)]
             outs = [dict(x) for x in rng.choices(P, weights=w, k=no)]
-            ts.append({"proj": p, "name": nm, "kind": kind, "deps": deps, "outs": outs, "noout": kind == "b" and rng.random() < 0.25})
+            bad = [rng.choice(["S::a::b.output", "a::b::c.output", ".output", "a b.output", "a.outputs", "S::.output", "::a.output",
+                               "a.output.output", "-a.output", "R::S::a.output"])] if (kind != "a" and rng.random() < 0.06) else []
+            ts.append({"proj": p, "name": nm, "kind": kind, "deps": deps, "outs": outs, "noout": kind == "b" and rng.random() < 0.25, "bad": bad})
         cli = []
         for t in ts:
             disp = t["name"] if t["proj"] == "_" else t["proj"] + "::" + t["name"]
